@@ -104,11 +104,21 @@ def pairs() -> dict:
 class World:
     """One store + the model/binding of everything set up so far on it."""
 
+    n_worlds = 0
+    second_is_pickled_copy = False
+
     def __init__(self, kind: str, two: bool, grpc_workers: int = 10) -> None:
         self.kind = kind
         self.store = backends.Store(kind, grpc_workers=grpc_workers) if kind.startswith("grpc:") else backends.Store(kind)
         self.c1 = self.store.client()
         self.c2 = self.store.client() if (two and self.store.multi_client) else self.c1
+        World.n_worlds += 1
+        if two and kind.startswith("journal_file") and World.n_worlds % 2 == 0:
+            # every other world: the second worker got its storage the way a process pool hands it over - as an unpickled copy
+            import pickle
+
+            self.c2 = pickle.loads(pickle.dumps(self.c1))
+            self.second_is_pickled_copy = True
         self.model = RefStorage()
         self.bind = X.Binding()
         self.n = 0
@@ -380,7 +390,8 @@ def explore(ctx: Ctx, s: sched.Sched, kind: str, two: bool, pname: str, pair: tu
             for rop in read_ops(sc, w.model, w.kind):
                 events.append(timed(w.c1 if len(events) % 2 else w.c2, rop, w.bind, "R"))
             case = {"driver": "single_preemption", "backend": kind, "two_storage_objects": w.c2 is not w.c1, "pair": pname,
-                    "paused_at": None if target is None else f"{target[0].co_qualname}:{target[1]}#{target[2]}", "journal_aged": aged, "seed": ctx.seed}
+                    "paused_at": None if target is None else f"{target[0].co_qualname}:{target[1]}#{target[2]}", "journal_aged": aged,
+                    "second_worker_is_a_pickled_copy": w.second_is_pickled_copy, "seed": ctx.seed}
             ctx.case(case, bool(r["b_inside_window"]) or target is None)
             n_before = len(ctx.violations)
             judge(ctx, events, model0, bind0, kind, {"driver": "single_preemption", "pair": pname, "b_completed_inside_window": bool(r["b_inside_window"])}, case)
